@@ -302,7 +302,10 @@ def oracle_call(P, ctx, subj, d, claims, classes, n, pattern):
                     add('C09', 'an Err result is not stored (async: store guarded by is_ok)', (len(ins) == 0) if not okv else True)
                     add('C09', 'an Ok result is stored', (len(ins) == 1 and simp(b_and(str_eq(ins[0]['key'], key), term_eq(deref_all(ins[0]['value']), res_v)))) if okv else True)
                 else:
-                    add('C09', 'Result functions store through insert_result* (which keeps only Ok)', len(ins) == 1 and ins[0]['method'].startswith('insert_result') and simp(b_and(str_eq(ins[0]['key'], key), term_eq(deref_all(ins[0]['value']), res_v))))
+                    # either the Result-aware store (which keeps only Ok; decided by the insert_result VCs of this property) or a plain store guarded by is_ok
+                    via_res = len(ins) == 1 and ins[0]['method'].startswith('insert_result')
+                    right = len(ins) == 1 and simp(b_and(str_eq(ins[0]['key'], key), term_eq(deref_all(ins[0]['value']), res_v if via_res or not isinstance(res_v, Agg) else res_v.fields[0])))
+                    add('C09', 'Result functions store through insert_result* (which keeps only Ok)', right if (via_res or okv) else len(ins) == 0)
             else:
                 add('C03', 'the result of an executed body is stored under the call\'s key', len(ins) == 1 and simp(b_and(str_eq(ins[0]['key'], key), term_eq(deref_all(ins[0]['value']), res_v))))
         if ins:
@@ -333,7 +336,7 @@ def oracle_call(P, ctx, subj, d, claims, classes, n, pattern):
             okv = execs[0][4].variant == 0
             if not okv and not hit: add('C09', 'a call that failed is executed again by the next call', len(ex2) == 1)
             if okv: add('C09', 'after the first Ok the next call is served without running the body', len(ex2) == 0 and hit2)
-        if not it['result'] and not it['cache_if'] and not it['invalidate_on'] and it['ttl'] is None and it['max_memory'] is None:
+        if not it['result'] and not it['cache_if'] and not it['invalidate_on'] and it['ttl'] is None and it['max_memory'] is None and not (it['limit'] is not None and it['policy'] == 'Random'):
             add('C03', 'once stored, the same arguments are served without running the body', len(ex2) == 0)
             add('C01', 'the second call returns the same value', simp(term_eq(d['r2'], r)))
 
@@ -416,6 +419,8 @@ def replay(f, w):
         return f"call {tid} {w['subject']} {recv} " + ' '.join(map(str, rest))
     for a in w['setup']: L.append(callline(0, a))
     L.append(callline(w['tid'], w['call']))
+    cname = it['cache_name']
+    if rec['flavour'] != 'T': L.append('keys ' + cname)
     if w.get('second'): L.append(callline(w['tid'], w['call']))
     L += ['log', 'end']
     outs, err = R.run_scenarios('\n'.join(L) + '\n', timeout=90)
@@ -423,16 +428,61 @@ def replay(f, w):
     lines = outs[0]
     rets = [l[4:] for l in lines if l.startswith('ret ')]; ex = [int(l[6:]) for l in lines if l.startswith('execs ')]
     npred = len([l for l in lines if l.startswith('ev pred')]); nstale = len([l for l in lines if l.startswith('ev stale')])
+    keyl = [l.split()[2:] for l in lines if l.startswith('keys ')]
     ns = len(w['setup'])
     if any('<panic' in r for r in rets): return (f['clause'] == 'no panic'), 'native panic: ' + str(rets), lines
     if len(rets) < ns + 1: return False, 'native run incomplete', lines
     ex_before = ex[ns - 1] if ns else 0
     d_exec = ex[ns] - ex_before
+    d_exec2 = (ex[ns + 1] - ex[ns]) if w.get('second') and len(ex) > ns + 1 else None
     pred = w['predicted']
-    # the symbolic path's own prediction must be what the real code does ...
+    cl = f.get('clause', '')
+    detail = f"native: executions in the call under test = {d_exec} (interpreter predicted {pred['execs']})" + (f", second call {d_exec2} (predicted {pred['execs2']})" if d_exec2 is not None else '') + f"; predicate consultations {npred}, staleness checks {nstale}; returns {rets}"
+    # ---- claims about the returned value: compared with what the body produces for these arguments (the environment is scripted)
+    if any(x in cl for x in ('serves the value', 'returns the cached value', 'returns what the body returned', 'returns the same value', 'returns the fresh result')):
+        okflags = [e.get('ok', True) for e in w['env'] if e['kind'] == 'exec']; okflags2 = [e.get('ok', True) for e in w['env2'] if e['kind'] == 'exec']
+        def want(nexec, ex0, okf, prev):
+            if w.get('impure'):
+                if nexec: return str(1000 + ex0)
+                if prev is not None: return prev
+                same = [j for j, a in enumerate(w['setup']) if a == w['call']]
+                return str(1000 + same[-1]) if same else None
+            if rec['ret'] not in ('u64', 'Result<u64, u8>'): return None
+            v = native_body(rec, w['call']); ok = okf[0] if (nexec and okf) else True
+            if it['result']: return f'Ok({v})' if ok else f'Err({v & 255})'
+            return str(v)
+        exp1 = want(d_exec, ex_before, okflags, None)
+        devs = []
+        if exp1 is not None and rets[ns].strip() != exp1: devs.append(f'the call returned {rets[ns]}, the body produces {exp1} for these arguments')
+        if d_exec2 is not None and 'same value' in cl:
+            exp2 = want(d_exec2, ex[ns], okflags2, rets[ns].strip())
+            if exp2 is not None and rets[ns + 1].strip() != exp2: devs.append(f'the second call returned {rets[ns + 1]}, expected {exp2}')
+        if exp1 is None: return (d_exec == pred['execs']), 'return type not comparable natively; ' + detail, lines
+        return (len(devs) > 0), ('; '.join(devs) + '; ' + detail) if devs else ('native returns are what the body produces; ' + detail), lines
+    # ---- claims about what is stored: key listing after the call under test (global / async engines)
+    kx = '|'.join(map(str, w['call'])) if False else None
+    pres_want = None
+    execs_env = [e for e in w['env'] if e['kind'] == 'exec']; preds_env = [e for e in w['env'] if e['kind'] == 'pred']
+    okv = execs_env[0].get('ok', True) if execs_env else True
+    if 'Err result is not stored' in cl or 'after an Err outcome' in cl or 'rejects is not stored' in cl: pres_want = False
+    elif 'Ok result is stored' in cl or 'after an Ok outcome' in cl or 'is stored under the call' in cl: pres_want = True
+    elif 'insert_result' in cl: pres_want = bool(okv)
+    elif 'predicate accepts is stored' in cl or 'stored iff' in cl:
+        pres_want = bool(preds_env and preds_env[0]['verdict']) and (bool(okv) if rec['flavour'] != 'A' else True)
+    if pres_want is not None and keyl and ns + 1 <= len(ex):
+        before = None
+        # the key text is not reconstructed here: presence = the listing grew by one entry / a further call is a hit
+        n_before = len(set(map(tuple, w['setup'])))
+        n_after = len(keyl[0])
+        fresh_args = w['call'] not in w['setup']
+        if fresh_args and it['limit'] is None and it['max_memory'] is None and it['ttl'] is None:
+            present = n_after == n_before + 1
+            ok_dev = present != pres_want
+            return ok_dev, (f"after the call the cache lists {n_after} keys ({n_before} before): the result was {'stored' if present else 'not stored'}, the attribute list prescribes {'stored' if pres_want else 'not stored'}; " + detail), lines
+    # ---- everything else: the native run must take the interpreted path on which the claim fails (same executions / consultations)
     agrees = (d_exec == pred['execs'])
-    if w.get('second') and pred['execs2'] is not None: agrees = agrees and (ex[ns + 1] - ex[ns] == pred['execs2'])
-    if not w.get('impure') and not it['result'] and pred['ret'] not in ('<string>',):
-        pass
-    detail = f"native: executions in the call under test = {d_exec} (interpreter predicted {pred['execs']})" + (f", second call {ex[ns + 1] - ex[ns]} (predicted {pred['execs2']})" if w.get('second') and len(ex) > ns + 1 else '') + f"; predicate consultations {npred}, staleness checks {nstale}; returns {rets}"
+    if d_exec2 is not None and pred['execs2'] is not None: agrees = agrees and (d_exec2 == pred['execs2'])
+    want_np = len([e for e in w['env'] + w['env2'] if e['kind'] == 'pred']) + (len(w['setup']) if it['cache_if'] else 0)
+    want_nst = len([e for e in w['env'] + w['env2'] if e['kind'] == 'stale'])
+    if 'consulted' in cl: agrees = agrees and npred == want_np and nstale == want_nst
     return agrees, ('native run follows the interpreted path on which the claim fails: ' if agrees else 'native run does NOT follow the interpreted path: ') + detail, lines
